@@ -8,10 +8,12 @@ PROPS["C06"] = {
         "quick": [
             {"name": "split", "run": "^TestSplitPartition$", "checks": 36000, "shards": 4},
             {"name": "dispatch", "run": "^TestDispatchRoutesByPartIndex$", "checks": 9000, "shards": 2},
+            {"name": "splitlarge", "run": "^TestSplitLargeBatch$", "checks": 240, "shards": 8},
         ],
         "thorough": [
             {"name": "split", "run": "^TestSplitPartition$", "checks": 800000, "shards": 12, "timeout": 1500},
             {"name": "dispatch", "run": "^TestDispatchRoutesByPartIndex$", "checks": 120000, "shards": 4, "timeout": 1500},
+            {"name": "splitlarge", "run": "^TestSplitLargeBatch$", "checks": 16000, "shards": 16, "timeout": 1500},
         ],
     },
     "assumptions": [
@@ -396,12 +398,12 @@ PROPS["C20"] = {
         "quick": [
             {"name": "ordering", "run": "^TestExtensionOrdering$", "checks": 192, "shards": 16},
             {"name": "startup", "run": "^TestStartupFailure$", "checks": 72, "shards": 4},
-            {"name": "startupkinds", "run": "^TestStartupFailureKinds$", "checks": 240, "shards": 4},
+            {"name": "startupkinds", "run": "^TestStartupFailureKinds$", "checks": 240, "shards": 4, "shrinktime": "1s"},
         ],
         "thorough": [
             {"name": "ordering", "run": "^TestExtensionOrdering$", "checks": 3200, "shards": 16, "timeout": 1700},
             {"name": "startup", "run": "^TestStartupFailure$", "checks": 400, "shards": 4, "timeout": 1700},
-            {"name": "startupkinds", "run": "^TestStartupFailureKinds$", "checks": 8000, "shards": 8, "timeout": 1700},
+            {"name": "startupkinds", "run": "^TestStartupFailureKinds$", "checks": 8000, "shards": 8, "timeout": 1700, "shrinktime": "1s"},
         ],
     },
     "assumptions": [
